@@ -588,14 +588,86 @@ func (C17) Generate(rng *rand.Rand, tier string) []core.Case {
 			}
 		}
 	}
+	// the client side: subscriptions and reconnections of the client's notifications manager
+	nc := 3
+	if tier == "thorough" {
+		nc = 40
+	}
+	scripts := []string{"sub,b,w,w,r,w", "w,w,sub,w,b,w,r,w", "sub,w,b,r,w"}
+	for i := 0; i < nc; i++ {
+		var toks []string
+		for j := rng.Intn(3); j > 0; j-- {
+			toks = append(toks, "w")
+		}
+		toks = append(toks, "sub")
+		for j := 1 + rng.Intn(2); j > 0; j-- {
+			for k := rng.Intn(3); k > 0; k-- {
+				toks = append(toks, "w")
+			}
+			toks = append(toks, "b")
+			for k := rng.Intn(3); k > 0; k-- {
+				toks = append(toks, "w")
+			}
+			toks = append(toks, "r")
+		}
+		toks = append(toks, "w")
+		scripts = append(scripts, strings.Join(toks, ","))
+	}
+	for i, sc := range scripts {
+		cases = append(cases, core.Case{Name: fmt.Sprintf("notif-client-%d", i), Ops: []string{"nc.run script=" + sc}})
+	}
 	return cases
 }
-func (C17) Exec(ops []string, outs []string) { dbExecOps(ops, outs) }
+func (C17) Exec(ops []string, outs []string) {
+	if len(ops) > 0 && strings.HasPrefix(ops[0], "nc.") {
+		for i, o := range ops {
+			o := o
+			outs[i] = core.Safe(func() string {
+				f := strings.Fields(o)
+				if f[0] == "nc.run" {
+					return c17Client(c20kv(f))
+				}
+				return "bad-op"
+			})
+		}
+		return
+	}
+	dbExecOps(ops, outs)
+}
 func (C17) Timeout() time.Duration           { return 60 * time.Second }
 
 // Oracle: what each committed request must announce is recomputed in Go from the request and its
 // response; every read must return exactly the batches with offset >= start, ascending.
 func (C17) Oracle(ops, impl, model []string) string {
+	if len(ops) > 0 && strings.HasPrefix(ops[0], "nc.") {
+		for i, o := range ops {
+			if i >= len(impl) || !strings.HasPrefix(impl[i], "got=") {
+				continue
+			}
+			out := impl[i]
+			if j := strings.Index(out, " ~"); j >= 0 {
+				out = out[:j]
+			}
+			var got []string
+			if v := strings.TrimPrefix(out, "got="); v != "" {
+				got = strings.Split(v, ",")
+			}
+			want := c17ClientExpected(c20kv(strings.Fields(o))["script"])
+			for k := range want {
+				if k >= len(got) || got[k] != want[k] {
+					g := "nothing"
+					if k < len(got) {
+						g = got[k]
+					}
+					return fmt.Sprintf("op %d: the subscriber's notification %d is %s, the change committed after its subscription at that position is %s (received %v, committed %v): a change was lost, duplicated or reordered across a reconnection", i, k, g, want[k], got, want)
+				}
+			}
+			if len(got) > len(want) {
+				return fmt.Sprintf("op %d: the subscriber received %v, only %v were committed after its subscription", i, got, want)
+			}
+		}
+		return ""
+	}
 	type batch struct {
 		off    int64
 		ts     int64
